@@ -19,6 +19,8 @@ binding a SyntaxError.
 """
 import json
 
+import itertools
+
 from mc.util import Acc, time_limit, CaseTimeout
 from mc.ref import sc_nl as N
 
@@ -58,7 +60,8 @@ BOUNDS = {
 
 def bounds(tier):
     return {"families(names, depth, declare_after_use_variants)": [list(f) for f in BOUNDS[tier]["families"]],
-            "level_kinds": list(N.KINDS), "module_actions": list(N.ACTS_M), "level_actions": list(N.ACTS_L)}
+            "level_kinds": list(N.KINDS), "module_actions": list(N.ACTS_M), "level_actions": list(N.ACTS_L),
+            "sibling_declarations": "module defs of a,b x f's variables plain/let-bound x f defs of a,b x (nonlocal|global, a|b) for each of two sibling functions: %d programs" % len(sib_space())}
 
 
 def shards(tier):
@@ -69,6 +72,9 @@ def shards(tier):
         step = b["per_shard"] if not var else max(1, b["per_shard"] // 3)
         for lo in range(0, total, step):
             out.append([fi, lo, min(total, lo + step)])
+    n = len(sib_space())
+    for lo in range(0, n, 64):
+        out.append(["sib", lo, min(n, lo + 64)])
     return out
 
 
@@ -222,8 +228,108 @@ def check_case(acc, npool, kinds, acts, use, sample=False):
         bad("wrong-module-globals", f"model {m['globals']} implementation {r['globals']}", None)
 
 
+# ---------------------------------------------------------------- sibling declarations
+# Two SIBLING functions g, h inside one function f, each declaring one of the names a, b nonlocal/global and assigning it
+# (several separate declarations resolved through the same enclosing scope), f's own variables plain or let-bound.
+SIB_DECL = [(d, n) for d in ("nonlocal", "global") for n in (0, 1)]
+
+
+def sib_space():
+    out = []
+    for macts in itertools.product(("none", "def"), repeat=2):
+        for fkind in ("F", "T"):
+            for facts in itertools.product(("none", "def"), repeat=2):
+                for g in SIB_DECL:
+                    for h in SIB_DECL:
+                        out.append((macts, fkind, facts, g, h))
+    return out
+
+
+def sib_render(p):
+    macts, fkind, facts, g, h = p
+    names = ("a", "b")
+
+    def rd(site, v):
+        return f'(log {site} (try {v} (except [NameError] "U")))'
+    top = "".join(f"(setv {names[i]} {100 + i}) " for i in (0, 1) if macts[i] == "def")
+    inner = (f"(defn g [] ({g[0]} {names[g[1]]}) (setv {names[g[1]]} 120) None) "
+             f"(defn h [] ({h[0]} {names[h[1]]}) (setv {names[h[1]]} 130) None) (g) (h) {rd(10, 'a')} {rd(11, 'b')}")
+    if fkind == "F":
+        body = "".join(f"(setv {names[i]} {110 + i}) " for i in (0, 1) if facts[i] == "def") + inner
+    else:
+        binds = " ".join(f"{names[i]} {110 + i}" for i in (0, 1) if facts[i] == "def")
+        body = f"(let [{binds}] {inner})"
+    return f"{top}(defn f [] {body} None) (f) {rd(0, 'a')} {rd(1, 'b')}"
+
+
+def sib_model(p):
+    """-> dict(error=why|None, trace, globals)"""
+    macts, fkind, facts, g, h = p
+    M = {i: 100 + i for i in (0, 1) if macts[i] == "def"}
+    F = {i: 110 + i for i in (0, 1) if facts[i] == "def"}
+    targets = []
+    for decl, n in (g, h):
+        if decl == "global":
+            targets.append(("M", n))
+        elif n in F:
+            targets.append(("F", n))          # the enclosing function's variable / its let binding
+        elif n in M:
+            targets.append(("M", n))          # api.rst: a global statement for names originally defined in the global scope
+        else:
+            return dict(error=f"no binding for nonlocal {'ab'[n]}", trace=None, globals=None)
+    for (where, n), val in zip(targets, (120, 130)):
+        (M if where == "M" else F)[n] = val
+    trace = []
+    for n in (0, 1):
+        trace.append((10 + n, _rep(F[n] if n in F else M.get(n, "U"))))
+    for n in (0, 1):
+        trace.append((n, _rep(M.get(n, "U"))))
+    glob = {"ab"[n]: _rep(v) for n, v in M.items()}
+    glob["f"] = "<fn>"
+    return dict(error=None, trace=trace, globals=glob)
+
+
+def check_sib(acc, p, sample=False):
+    text = sib_render(p)
+    m = sib_model(p)
+    case = {"sib": [list(x) if isinstance(x, tuple) else x for x in p], "text": text}
+    acc.evaluations += 1
+    r = run_impl(text)
+    acc.traces += 1
+    acc.transitions += len(r.get("trace") or ()) + 1
+    out = r["outcome"]
+    if sample:
+        acc.sample({"hy": text, "model": m})
+    shape = f"{p[1]}:{p[3][0]}/{p[4][0]}:{'same' if p[3][1] == p[4][1] else 'different'}-name"
+
+    def bad(kind, detail, **kw):
+        acc.disagree(kind, case, detail, sig=f"sib:{kind}:{shape}", kinds="sib", column="-", use="-", tags="sibling-declarations", **kw)
+    if m["error"]:
+        acc.outcome("sib:syntax-error:any-stage")
+        if out[0] != "error":
+            bad("accepted-invalid-declaration", f"model: SyntaxError ({m['error']}); implementation {out[:2]} trace {r.get('trace')}")
+        elif out[1] != "SyntaxError" or out[2] == "hy-internal":
+            bad("wrong-error-class", f"model: SyntaxError ({m['error']}); implementation {out}", exc=str(out[1]))
+        return
+    acc.outcome("sib:ok")
+    if out[0] != "ok":
+        bad("wrong-outcome", f"model: runs, trace {m['trace']}; implementation {out}", exc=str(out[1]), stage=str(out[2]) if out[0] == "error" else "run")
+    elif r["trace"] != m["trace"]:
+        bad("wrong-binding-reached", f"model trace {m['trace']} implementation trace {r['trace']}")
+    elif r["globals"] != m["globals"]:
+        bad("wrong-module-globals", f"model {m['globals']} implementation {r['globals']}")
+
+
 def run_shard(shard, tier):
     acc = Acc()
+    if shard[0] == "sib":
+        space = sib_space()
+        for idx in range(shard[1], shard[2]):
+            acc.states += 1
+            acc.nontrivial += 1
+            acc.count("sibling-declaration programs")
+            check_sib(acc, space[idx], sample=(idx % 97 == 5))
+        return acc.result()
     fi, lo, hi = shard
     npool, d, var = BOUNDS[tier]["families"][fi]
     for idx in range(lo, hi):
@@ -242,6 +348,10 @@ def run_shard(shard, tier):
 
 def recheck(case, tier):
     acc = Acc()
+    if "sib" in case:
+        p = case["sib"]
+        check_sib(acc, (tuple(p[0]), p[1], tuple(p[2]), tuple(p[3]), tuple(p[4])))
+        return acc.disagreements
     check_case(acc, case["names"], case["kinds"], tuple(tuple(a) for a in case["acts"]),
                tuple(case["use"]) if case.get("use") else None)
     return acc.disagreements
